@@ -234,8 +234,8 @@ def ipca(B, U_a, l_a, n_a, m_a=None, f=1.0, eps=1e-10, centred=None):
         more emphasis is put on the new samples. See [1] for details.
     eps : `float`, optional
         Tolerance value for positive eigenvalue. Those eigenvalues smaller
-        than the specified eps value, together with their corresponding
-        eigenvectors, will be automatically discarded.
+        than ``eps`` times the largest eigenvalue, together with their
+        corresponding eigenvectors, will be automatically discarded.
     centred : `bool`, optional
         Whether the model being updated is centred. If ``None`` this is
         inferred from ``m_a`` as described above; pass it explicitly when a
@@ -308,8 +308,10 @@ def ipca(B, U_a, l_a, n_a, m_a=None, f=1.0, eps=1e-10, centred=None):
 
     # compute new eigenvalues
     l = s_tilde**2 / (n - 1)
-    # keep only positive eigenvalues within tolerance
-    l = l[l > eps]
+    # keep only positive eigenvalues within tolerance (relative to the
+    # largest one, exactly as pca does, so that the result does not depend on
+    # the units of the data)
+    l = l[l > eps * np.max(l)]
 
     U = Vt_tilde.dot(np.vstack((U_a, B_tilde)))[: len(l), :]
 
